@@ -265,7 +265,7 @@ def plan(prop, tier, seed):
 
 
 CORPUS_FOR = {
-    "C01": ["D01", "D13", "D15"], "C02": ["D13"], "C03": ["D02"], "C04": [], "C05": ["D03", "D13"], "C06": ["D06"], "C07": ["D04", "D05"], "C08": [],
+    "C01": ["D01", "D13", "D15", "K16"], "C02": ["D13"], "C03": ["D02"], "C04": [], "C05": ["D03", "D13"], "C06": ["D06"], "C07": ["D04", "D05"], "C08": [],
     "C09": ["D02", "D06", "D09"], "C10": ["D08"], "C11": [], "C12": [], "C13": [], "C14": ["D09", "F13"], "C15": ["D10", "D14"], "C16": [], "C17": ["D11", "D13"],
     "C18": ["D09", "D13"], "C19": ["D12"], "C20": [],
 }
@@ -564,13 +564,17 @@ def main():
     other = [(n_, l_, v) for n_, l_, v in viol if v.prop != prop]
     seen_sigs = set()
     for name, lines, v in mine:
+        # a known finding is one specific history: the corpus scenario named in known_findings.txt, with that monitor verdict.
+        # The same verdict on any other scenario is a different violation and is reported.
+        kn = [x for x in known if x["prop"] == prop and x["sig"] == v.sig()
+              and (name == "corpus:" + os.path.basename(x["replay"]) or (args.replay and os.path.basename(args.replay) == os.path.basename(x["replay"])))]
+        if kn:
+            if not any(k0 is kn[0] for k0, _ in known_hits):
+                known_hits.append((kn[0], v))
+            continue
         if v.sig() in seen_sigs:
             continue
         seen_sigs.add(v.sig())
-        kn = [x for x in known if x["prop"] == prop and x["sig"] == v.sig()]
-        if kn:
-            known_hits.append((kn[0], v))
-            continue
         small = lines
         if not args.replay and len(lines) > 40 and not name.startswith(("replay", "fill", "wrap")):
             try:
